@@ -298,7 +298,7 @@ def main(prop, tier, seed):
             ar = apool.map_async(_aux, aux)
             results = prove.solve_all(obs, timeout_s=timeout_s, xcheck=(48 if tier == 'thorough' else 0), seed=seed)
             try:
-                aux_res = ar.get(timeout=timeout_s * 5 + 300)
+                aux_res = ar.get(timeout=timeout_s * 5 + 300 + 90 * len(aux))
             except mp.TimeoutError:
                 aux_res = []
                 problems.append(("aux-timeout", prop, "cover/cosim tasks did not finish"))
